@@ -48,6 +48,17 @@ def graph_project(n, edges, spelling, layout):
             if spelling == "let":
                 lines.append('let l%d = import "%s";' % (b, p))
                 terms.append("l%d.s" % b)
+            elif spelling == "format-expression":
+                # the import is evaluated by the child VM that runs the @{} expressions of a format string
+                terms.append('int("@{(import \\"%s\\").s}" %% 0)' % p)
+            elif spelling == "function-body":
+                lines.append('let g%d = func () => (import "%s").s;' % (b, p))
+                terms.append("g%d()" % b)
+            elif spelling == "module-body":
+                lines.append('let m%d = module {} => (r) {\n    let r = (import "%s").s;\n};' % (b, p))
+                terms.append("m%d{}" % b)
+            elif spelling == "map-callback":
+                terms.append('map(func (i) => (import "%s").s, [0]).0' % p)
             else:
                 terms.append('(import "%s").s' % p)
         lines.append("let s = %s;" % " + ".join(terms))
@@ -518,6 +529,12 @@ def run(ctx):
             for spelling in ("let", "inline"):
                 layouts = [0] if (n == 3 and not thorough) else ([0, 1] if not thorough else [0, 1, 2])
                 for li in layouts:
+                    graphs.append((n, edges, spelling, li))
+    # the places where a child VM evaluates the import (it must know what is being imported already): graphs on 1-2 files
+    for n in (1, 2):
+        for edges in all_graphs(n):
+            for spelling in ("format-expression", "function-body", "module-body", "map-callback"):
+                for li in ([0, 1] if n == 2 else [0]):
                     graphs.append((n, edges, spelling, li))
     if thorough:
         # all digraphs on 4 files without self-loops, flat layout, inline spelling
